@@ -219,3 +219,31 @@ func buildMesh(seed int64, ids []string, links []string, o mesh.Opts) (*mesh.Mes
 
 	return m, nil
 }
+
+// closeDeadlocked: a PacketConn.Close that has not returned is a definite deadlock when it waits for the registry
+// write lock while a deliverer sits in the hand-over select of handleMessageData (which only Close's cancel or a
+// reader can end): each waits for the other.
+func closeDeadlocked() bool {
+	waiting := false
+	for _, g := range goroutines() {
+		if !(strings.Contains(g.State, "RWMutex") || strings.HasPrefix(g.State, "semacquire") || strings.Contains(g.State, "Mutex.Lock")) {
+			continue
+		}
+		for _, f := range g.Stack {
+			if strings.Contains(f, "(*PacketConn).Close") {
+				waiting = true
+			}
+		}
+	}
+
+	return waiting && countInFunc("handleMessageData", "select") > 0
+}
+
+// closeBounded calls Close in a goroutine and waits up to d; returns (returned, deadlocked).
+func closeBounded(closeFn func() error, d time.Duration) (bool, bool) {
+	if within(d, func() { _ = closeFn() }) {
+		return true, false
+	}
+
+	return false, closeDeadlocked()
+}
